@@ -510,6 +510,7 @@ namespace
             int variant = (int)r.below(VAR_N);
             const Alphabet &a = alpha_of(variant);
             int maxlen = tier == THOROUGH ? (r.chance(1, 8) ? (faults ? 200 : 700) : 48) : (r.chance(1, 10) ? 64 : 20);
+            if (faults && r.chance(1, 16)) maxlen = 600; // frames of 256 bytes and more (no per-offset sweep for these)
             if (!faults && tier == QUICK && r.chance(1, 25)) maxlen = 520; // pieces of 256 bytes and more
             int enc = (int)r.below(ENC_N);
             int nframes = (int)r.range(faults ? 2 : 1, faults ? 6 : 5);
@@ -530,12 +531,14 @@ namespace
                 else cap = (int)r.range(2, 6);
             }
             if (cap < 2) cap = 2;
+            if (r.chance(1, 30)) cap = (int)r.pick<int64_t>({65535, 65536, 65537, 70000, 131072}); // every frame fits by far; the size itself is the point
             // cfg[3], cfg[4] (fault-free world): the receiver object had an earlier session that ended in the middle of a frame
             // (cfg[4] selects where) and was then re-initialised by its owner in way cfg[3] (0: no earlier session); cfg[3] = 4: the
             // earlier traffic was one complete frame too long for the buffer, and the receiver was not re-initialised; cfg[3] = 5: the
-            // earlier traffic was one complete frame damaged inside an escape pair, no re-initialisation either
-            p.cfg = {variant, enc, cap, !faults && r.chance(1, 4) ? (int64_t)r.range(1, 5) : 0, (int64_t)r.below(64)};
-            bool sweep = faults && r.chance(1, 3);
+            // earlier traffic was one complete frame damaged inside an escape pair, no re-initialisation either; cfg[3] = 6: a complete
+            // frame with a wrong CRC
+            p.cfg = {variant, enc, cap, !faults && r.chance(1, 4) ? (int64_t)r.range(1, 6) : 0, (int64_t)r.below(64)};
+            bool sweep = faults && r.chance(1, 3) && longest <= 200;
             if (faults && r.chance(1, 3))
             {
                 // garbage prefix
@@ -613,7 +616,8 @@ namespace
             Result res;
             int variant = (int)mod(p.c(0), VAR_N);
             int enc = (int)mod(p.c(1), ENC_N);
-            int cap = (int)mod(p.c(2) - 2, 400) + 2;
+            // capacities 2..401, or (cfg[2] >= 60000) a huge buffer of up to 200000 bytes: sizes around the 16-bit boundary
+            int cap = p.c(2) >= 60000 ? (int)std::min<int64_t>(p.c(2), 200000) : (int)mod(p.c(2) - 2, 400) + 2;
             const Alphabet &a = alpha_of(variant);
             // ---- assemble pieces: encode every frame with the real encoder, check the frame format (C04 part 2)
             std::vector<Piece> pieces;
@@ -688,7 +692,8 @@ namespace
             if (!faults) cap = std::max(cap, (int)maxpayload + 2); // C04: a large enough buffer
 
             LinkStats ls;
-            int earlier = faults ? 0 : (int)mod(p.c(3, 0), 6);
+            int earlier = faults ? 0 : (int)mod(p.c(3, 0), 7);
+            if (earlier == 4 && cap > 1000) earlier = 0; // (an oversized frame for a huge buffer would be a huge frame)
             auto build_and_run = [&](long sweep_off) {
                 std::vector<Elem> stream;
                 std::vector<FrameMeta> fr = frames;
@@ -701,6 +706,16 @@ namespace
                     for (uint8_t b : ref_encode(a, pl)) stream.push_back(Elem{b, 0, -1, 0});
                     last_fault = (long)stream.size() - 1;
                     probe("receiver_reused_after_overflow");
+                }
+                else if (earlier == 6)
+                {
+                    // a complete frame whose CRC byte is wrong (one flipped bit in a plain data byte)
+                    Bytes pl = {(uint8_t)'c', (uint8_t)'r', (uint8_t)('a' + mod(p.c(4, 0), 20))};
+                    Bytes fe = ref_encode(a, pl);
+                    fe[1] ^= 0x01; // 'c' -> 'b': still an ordinary data byte
+                    for (uint8_t b : fe) stream.push_back(Elem{b, 0, -1, 0});
+                    last_fault = (long)stream.size() - 1;
+                    probe("receiver_reused_after_crc_error");
                 }
                 else if (earlier == 5)
                 {
